@@ -421,7 +421,8 @@ export class SchemaPrintingContext {
   }
 
   getRef(name: string): string {
-    return this.refPathTemplate.replace("{name}", name);
+    // a replacer function: in a replacement *string*, "$$" / "$&" in a type name are patterns
+    return this.refPathTemplate.replace("{name}", () => name);
   }
 
   hasDefinition(name: string): boolean {
